@@ -1,11 +1,10 @@
 import OpusModel.EncSkel
 /-
-  OpusProofs.EncSkelMs — the per-stream budget split of `opus_multistream_encode_native`
-  (src/opus_multistream_encoder.c:855-1012): if `max_data_bytes` is at least `smallest_packet`, every
-  stream is handed at least the minimum it needs (1 byte, 2 bytes for 100 ms frames), the self-delimited
-  length reserve (`curr_max>253 ? 2 : 1`) is always enough, and the total never exceeds `max_data_bytes`
-  (equals the CBR-clamped size with VBR off) — for all per-stream encoder behaviours within the
-  single-stream contract `1 ≤ len ≤ curr_max` (property C05 `ret_le_out`).
+  OpusProofs.EncSkelMs — arithmetic of the per-stream budget split of `opus_multistream_encode_native`
+  (src/opus_multistream_encoder.c:976-984, `msCurrMax`): while the space left covers the minimum the remaining
+  streams need (`msNeed`), the stream is handed a legal budget (≥ 1 byte, ≥ 2 for 100 ms frames), and whatever it
+  emits within it plus the self-delimited length (`curr_max>253 ? 2 : 1` reserved) leaves enough for the rest.
+  Used by OpusProofs/EncSkelMsLive.lean over C10's model of the stream loop.
 -/
 namespace Opus.EncSkel.Proofs
 open Opus Opus.EncSkel
@@ -21,33 +20,6 @@ structure MsStream where
 /-- Minimum space for streams `s .. n-1` (`smallest_packet` is `msNeed n fr 0`). -/
 def msNeed (n fr s : Int) : Int :=
   if s ≥ n then 0 else (2 * (n - s) - 1) + (if fr = 10 then n - s else 0)
-
-/-- Contract of stream `s` given its budget `cm`: the encoder call is legal (`cm ≥ 1`, not one byte for
-    100 ms) ⇒ it returns `1 ≤ len ≤ cm` (C05); the repacketiser emits the packet self-delimited for all
-    but the last stream (at most `len` + a 1- or 2-byte length field; padding is dropped), and pads the last
-    stream to the remaining space with VBR off. -/
-def msStreamOk (n vbr maxB tot s cm : Int) (x : MsStream) : Prop :=
-  1 ≤ x.len ∧ x.len ≤ cm ∧ 0 ≤ x.lastLen ∧ x.lastLen ≤ x.len - 1 ∧ 1 ≤ x.outB ∧
-  (if s ≠ n - 1 then x.outB ≤ x.len + (if x.lastLen ≥ 252 then 2 else 1)
-   else if vbr = 0 then x.outB = maxB - tot else x.outB ≤ x.len)
-
-/-- The stream loop (:925-1009): `k` streams still to do, next stream `s`, `tot` bytes written. -/
-def msLoop (n fs fsz vbr maxB : Int) : List MsStream → Int → Int → Int
-  | [], _, tot => tot
-  | x :: xs, s, tot => msLoop n fs fsz vbr maxB xs (s + 1) (tot + x.outB)
-
-/-- All streams of the list (starting at `s`, `tot`) are within their contract. -/
-def msAllOk (n fs fsz vbr maxB : Int) : List MsStream → Int → Int → Prop
-  | [], _, _ => True
-  | x :: xs, s, tot =>
-    msStreamOk n vbr maxB tot s (msCurrMax n fs fsz maxB tot s) x ∧ msAllOk n fs fsz vbr maxB xs (s + 1) (tot + x.outB)
-
-/-- Every stream of the list is handed a legal budget. -/
-def msBudgetsOk (n fs fsz maxB : Int) : List MsStream → Int → Int → Prop
-  | [], _, _ => True
-  | x :: xs, s, tot =>
-    (1 ≤ msCurrMax n fs fsz maxB tot s ∧ ¬ (msCurrMax n fs fsz maxB tot s = 1 ∧ fs / fsz = 10)) ∧
-    msBudgetsOk n fs fsz maxB xs (s + 1) (tot + x.outB)
 
 theorem msCurrMax_spec (n fs fsz maxB tot s : Int) (hs : 0 ≤ s) (hsn : s < n)
     (hinv : tot + msNeed n (fs / fsz) s ≤ maxB) :
@@ -75,105 +47,5 @@ theorem msCurrMax_spec (n fs fsz maxB tot s : Int) (hs : 0 ≤ s) (hsn : s < n)
     · intro hl hout
       by_cases h10 : fr = 10 <;> simp only [h10, hl, if_true, if_false] at hinv h2 ⊢ <;>
         (repeat' split at h2) <;> omega
-
-theorem ms_loop (n fs fsz vbr maxB : Int) :
-    ∀ (xs : List MsStream) (s tot : Int), 0 ≤ s → s + xs.length = n → 0 ≤ tot →
-      tot + msNeed n (fs / fsz) s ≤ maxB → msAllOk n fs fsz vbr maxB xs s tot →
-      msBudgetsOk n fs fsz maxB xs s tot ∧ tot ≤ msLoop n fs fsz vbr maxB xs s tot ∧
-      msLoop n fs fsz vbr maxB xs s tot ≤ maxB ∧
-      (vbr = 0 → xs ≠ [] → msLoop n fs fsz vbr maxB xs s tot = maxB) := by
-  intro xs
-  induction xs with
-  | nil =>
-    intro s tot _ hlen _ hinv _
-    have : msNeed n (fs / fsz) s = 0 := by unfold msNeed; rw [if_pos (by simp at hlen; omega)]
-    exact ⟨trivial, by simp [msLoop], by simp only [msLoop]; omega, fun _ h => absurd rfl h⟩
-  | cons x xs ih =>
-    intro s tot hs hlen htot hinv hok
-    simp only [List.length_cons] at hlen
-    obtain ⟨hx, hrest⟩ := hok
-    obtain ⟨hb, hstep⟩ := msCurrMax_spec n fs fsz maxB tot s hs (by omega) hinv
-    obtain ⟨c1, c2, c3, c4, c5, c6⟩ := hx
-    obtain ⟨st1, st2⟩ := hstep x c1 c2 c3 c4
-    by_cases hl : s = n - 1
-    · have hnil : xs = [] := by
-        cases xs with
-        | nil => rfl
-        | cons y ys => simp only [List.length_cons] at hlen; omega
-      subst hnil
-      rw [if_neg (by omega)] at c6
-      simp only [msLoop, msBudgetsOk]
-      by_cases hv : vbr = 0
-      · rw [if_pos hv] at c6
-        exact ⟨⟨hb, trivial⟩, by omega, by omega, fun _ _ => by omega⟩
-      · rw [if_neg hv] at c6
-        have := st2 hl c6
-        exact ⟨⟨hb, trivial⟩, by omega, by omega, fun h => absurd h hv⟩
-    · rw [if_pos hl] at c6
-      have hinv' := st1 hl c6
-      obtain ⟨i1, i2, i3, i4⟩ := ih (s + 1) (tot + x.outB) (by omega) (by push_cast at hlen ⊢; omega) (by omega) hinv' hrest
-      have hne : xs ≠ [] := by
-        intro h; subst h; simp at hlen; omega
-      simp only [msLoop, msBudgetsOk]
-      exact ⟨⟨hb, i1⟩, by omega, i3, fun hv _ => i4 hv hne⟩
-
-/-- **Multistream budget split.**  With `n ≥ 1` streams, `max_data_bytes ≥ smallest_packet` (otherwise
-    the call returns OPUS_BUFFER_TOO_SMALL at :863) and — only for CBR with OPUS_AUTO, where the clamp of
-    :882 has no lower bound — the allocated rate worth at least `smallest_packet` bytes: for all per-stream
-    behaviours within the single-stream contract, every stream is handed a legal budget (≥ 1 byte, ≥ 2
-    for 100 ms frames), and the call returns `1 ≤ ret ≤ max_data_bytes`, exactly the clamped size
-    `msMaxBytes` with VBR off. -/
-theorem ms_encode_ret_le_out (n fs fsz vbr bitrate rateSum maxData : Int) (xs : List MsStream)
-    (hn : 1 ≤ n) (hlen : (xs.length : Int) = n) (hsmall : msSmallest n fs fsz ≤ maxData)
-    (hauto : vbr = 0 → bitrate = Opus.EncDecide.OPUS_AUTO → msSmallest n fs fsz ≤ 3 * rateSum / (3 * 8 * fs / fsz))
-    (hok : msAllOk n fs fsz vbr (msMaxBytes vbr bitrate rateSum n fs fsz maxData) xs 0 0) :
-    msBudgetsOk n fs fsz (msMaxBytes vbr bitrate rateSum n fs fsz maxData) xs 0 0 ∧
-    1 ≤ msLoop n fs fsz vbr (msMaxBytes vbr bitrate rateSum n fs fsz maxData) xs 0 0 ∧
-    msLoop n fs fsz vbr (msMaxBytes vbr bitrate rateSum n fs fsz maxData) xs 0 0 ≤ maxData ∧
-    (vbr = 0 → msLoop n fs fsz vbr (msMaxBytes vbr bitrate rateSum n fs fsz maxData) xs 0 0 =
-       msMaxBytes vbr bitrate rateSum n fs fsz maxData) := by
-  have hneed : msNeed n (fs / fsz) 0 = msSmallest n fs fsz := by
-    unfold msNeed msSmallest
-    rw [if_neg (by omega)]
-    dsimp only
-    split <;> omega
-  have hmax : msSmallest n fs fsz ≤ msMaxBytes vbr bitrate rateSum n fs fsz maxData ∧
-      msMaxBytes vbr bitrate rateSum n fs fsz maxData ≤ maxData := by
-    unfold msMaxBytes
-    split
-    · rename_i hv
-      split
-      · rename_i ha
-        have := hauto hv ha
-        omega
-      · split <;> omega
-    · omega
-  generalize msMaxBytes vbr bitrate rateSum n fs fsz maxData = maxB at *
-  obtain ⟨h1, h2, h3, h4⟩ := ms_loop n fs fsz vbr maxB xs 0 0 (by omega) (by omega) (by omega)
-    (by rw [hneed]; omega) hok
-  have hne : xs ≠ [] := by intro h; subst h; simp at hlen; omega
-  refine ⟨h1, ?_, by omega, fun hv => h4 hv hne⟩
-  -- at least one byte: the first stream emits at least one
-  cases xs with
-  | nil => exact absurd rfl hne
-  | cons x xs' =>
-    obtain ⟨hx, hrest⟩ := hok
-    have hx5 := hx.2.2.2.2.1
-    have hsm : 1 ≤ msSmallest n fs fsz := by unfold msSmallest; dsimp only; split <;> omega
-    simp only [msLoop] at h2 ⊢
-    by_cases hl : (0 : Int) = n - 1
-    · have hnil : xs' = [] := by
-        cases xs' with
-        | nil => rfl
-        | cons y ys => simp only [List.length_cons] at hlen; push_cast at hlen; omega
-      subst hnil
-      simp only [msLoop]; omega
-    · obtain ⟨hb, hstep⟩ := msCurrMax_spec n fs fsz maxB 0 0 (by omega) (by omega) (by rw [hneed]; omega)
-      obtain ⟨c1, c2, c3, c4, c5, c6⟩ := hx
-      rw [if_pos hl] at c6
-      have hinv' := (hstep x c1 c2 c3 c4).1 hl c6
-      obtain ⟨_, i2, _, _⟩ := ms_loop n fs fsz vbr maxB xs' (0 + 1) (0 + x.outB) (by omega)
-        (by simp only [List.length_cons] at hlen; push_cast at hlen ⊢; omega) (by omega) hinv' hrest
-      omega
 
 end Opus.EncSkel.Proofs
